@@ -308,6 +308,7 @@ def run(ctx: Ctx) -> int:
         if tag.endswith("/san"):
             # split the big phases by offset range so 16 cores are used
             jobs.append((tag, exe, ["copy", max_off, max_len]))
+            jobs.append((tag, exe, ["copyoverlap", 12, 100 if not q else 80]))
             jobs.append((tag, exe, ["getbits", max_off, max_len, max_size]))
             jobs.append((tag, exe, ["getint", max_off, 70 if not q else 66, max_size]))
             jobs.append((tag, exe, ["setint", max_off, 70 if not q else 66, max_size]))
